@@ -41,7 +41,10 @@ RULE = ('(0) deterministic preemption inside calls: two threads edit their own c
         'alone in a fresh thread, and with the big-step model; (d) direct evaluation of the property on every run '
         '(state unchanged by a rejected set/enter, block keys restored on normal and exceptional exit, no change by '
         'get/call, own options stable between own steps, registry empty after calls) plus free-running threads with a '
-        '1 microsecond switch interval vs solo results; (i) `trivia`: the full cross product of 26 documented tokens and '
+        '1 microsecond switch interval vs solo results; (k) own defaults: a worker thread sets defaults D while the '
+        'importing thread holds defaults M in a block; the worker\'s _get_opt_eff_* answers and edit texts (incl. slice '
+        'copies/cuts of arglike-only arguments) for per-call options O must equal those of a pristine thread given O plus '
+        'D per call, over the assignments of every resolver group; (i) `trivia`: the full cross product of 26 documented tokens and '
         'near-misses x positions (alone, 1-tuple, both positions of a 2-tuple, 3-tuples): the real check function vs the '
         'per-position model over extracted token classes, and set_options/options()/an edit call vs the documented '
         'per-position grammar written down independently, with a second option in the same call that must stay unset; '
@@ -567,6 +570,85 @@ def _shield_sweep(ctx, full):
                      f'{got[:120]!r}; the same call under library defaults gives {alone[:120]!r}: a default for an option '
                      f'the call passes itself changed the outcome', {'defaults': D, 'call': O_, 'what': what})
     ctx.notes['shield_comparisons'] = n
+
+
+# ---- a thread's OWN defaults decide: thread default == the same values passed per call ------------------------------
+
+def _thread_default_case(arg):
+    """Worker thread W sets defaults D (set_options) while the calling thread - the one that imported the library -
+    holds defaults M in an options() block.  What W's resolvers and edits answer for per-call options O must equal the
+    answers of a pristine thread (nobody holds any default) given O plus D's values per call for the names O lacks."""
+    fns, eids, D, M, Os = arg
+    d = R.dom()
+    F = d.FST
+
+    def answers(opt_lists, defaults):
+        out = []
+
+        def body():
+            if defaults:
+                F.set_options(**d.dec_kvs(defaults))
+            for O in opt_lists:
+                row = [repr(getattr(F, fn)(d.dec_kvs(O))) for fn in fns]
+                row += [R.run_edit(e, d.dec_kvs(O), None) for e in eids]
+                out.append(row)
+            out.append(d.enc_map(F.get_options()))
+        R.run_in_fresh_thread(body)
+        return out
+    try:
+        R.reset_options()
+        with F.options(**d.dec_kvs(M)):
+            got = answers(Os, D)
+            mine = d.enc_map(F.get_options())
+        R.reset_options()
+        merged = [O + [kv for kv in D if kv[0] not in {k for k, _ in O}] for O in Os]
+        ref = answers(merged, [])
+        bad = []
+        names = list(fns) + [R.EDIT_NAMES[e] for e in eids]
+        for O, g, r in zip(Os, got[:-1], ref[:-1]):
+            for nm, a, b in zip(names, g, r):
+                if a != b:
+                    bad.append([nm, O, a, b])
+        exp_snap = d.enc_map(dict(d.fo._GLOBAL_OPTIONS_W_DEFAULTS, **d.dec_kvs(D)))
+        if got[-1] != exp_snap:
+            bad.append(['get_options', [], got[-1], exp_snap])
+        return {'bad': bad, 'n': len(names) * len(Os)}
+    except Exception:
+        import traceback
+        return {'harness_error': traceback.format_exc()[-600:]}
+    finally:
+        R.reset_options()
+
+
+def _thread_default_sweep(ctx, full):
+    rng = random.Random(ctx.rng.random())
+    d = R.dom()
+    jobs = []
+    for fns, names, eids in _groups():
+        asg = [a for a in _assignments(names)]
+        Ds = asg if full or len(asg) <= 20 else [[]] + rng.sample(asg[1:], 19)
+        for D in Ds:
+            others = [a for a in asg if a and a != D]
+            Ms = [[]] + rng.sample(others, min(2 if not full else 4, len(others)))
+            Os = [[]] + rng.sample(asg[1:], min(2, len(asg) - 1))
+            for M in Ms:
+                if D or M:
+                    jobs.append((fns, eids, D, M, Os))
+    outs = pmap(_thread_default_case, jobs, chunksize=1)
+    n = 0
+    for (fns, eids, D, M, Os), o in zip(jobs, outs):
+        if 'harness_error' in o:
+            ctx.brk('correspondence', 'C20.sweep.thread-default', o['harness_error'])
+            break
+        n += o['n']
+        ctx.count(['thread-default', D, M, Os], True)
+        for what, O, got, ref in o['bad'][:2]:
+            ctx.fail('C20|thread|default-not-own|' + what,
+                     f'a thread that did set_options{_pretty(D) if D else "()"} while the importing thread holds '
+                     f'options{_pretty(M) if M else "()"}: {what} with per-call options {_pretty(O) if O else "{}"} gives '
+                     f'{str(got)[:120]!r}; a pristine thread given the same values per call gives {str(ref)[:120]!r}',
+                     {'thread_default': D, 'main_default': M, 'call': O, 'what': what})
+    ctx.notes['thread_default_comparisons'] = n
 
 
 # ---- preemption inside library calls on state shared between trees (line objects after copy()) --------------------
@@ -1254,6 +1336,7 @@ def _direct(ctx, scale):
     n_doc = _doc_sweep(ctx)
     _trivia_product(ctx)
     ctx.notes['doc_domain_checks'] = n_doc
+    _thread_default_sweep(ctx, full=not q or scale > 1)
     _shield_sweep(ctx, full=not q or scale > 1)
     _sub_sweep(ctx, full=not q or scale > 1)
     d = R.dom()
@@ -1353,6 +1436,13 @@ def replay(ctx, data):
             o = _shield_case((fns, eids, w['call'], [w['defaults']]))
             for b in o.get('bad', []):
                 ctx.fail('replay', f'{b[0]}: defaults {_pretty(b[1])} call {_pretty(b[2])}: {b[3][:100]!r} vs alone {b[4][:100]!r}', w)
+        elif 'thread_default' in w:
+            what = w['what']
+            eids = [R.EDIT_NAMES.index(what)] if what in R.EDIT_NAMES else []
+            fns = [what] if what.startswith('_get_opt') else []
+            o = _thread_default_case((fns, eids, w['thread_default'], w['main_default'], [w['call']]))
+            for b in o.get('bad', []):
+                ctx.fail('replay', f'{b[0]}: {str(b[2])[:120]!r} vs pristine thread with per-call values {str(b[3])[:120]!r}', w)
         elif 'preempt' in w:
             p = w['preempt']
             r = PRE.run(R.dom().FST, p['src'], p['ka'], p['kb'], p['pa'], p['pb'])
